@@ -373,7 +373,7 @@ func c20CacheCase(c *Ctx, mode int) {
 			if sig, detail := c20CheckBC(bc, spec); sig != "" {
 				fail(sig, detail)
 			} else if bc.FirstHeight() != spec.first() {
-				c.Count("firstheight:stale-empty-entry")
+				fail("c20/firstheight-stale", fmt.Sprintf("FirstHeight()=%d but the lowest cached block is at height %d (0 = none): an emptied entry is still in the slice", bc.FirstHeight(), spec.first()))
 			}
 		}
 	}
@@ -471,6 +471,24 @@ func c20ConfirmCase(c *Ctx) {
 
 // Add / Push beyond 10240 entries: `c.Clear` is called with c.lock held.
 func c20Deadlocks(c *Ctx) {
+	// 10300 heights pass through the cache one after the other (each drained at once) while ONE block waits for
+	// its parent: the size limit must count cached heights, not every height seen since the last Clear.
+	{
+		bc := network.NewBlockCache()
+		lo, n := 100, 10300
+		keeper := uint32(lo + n + 5)
+		bc.Add(c20Blk(keeper, 0))
+		for i := 0; i < n; i++ {
+			bc.Add(c20Blk(uint32(lo+i), 0))
+			bc.Iterate(func(b *types.Block) bool { return b.Height() < keeper })
+		}
+		out := fmt.Sprintf("len=%d size=%d", len(bc.VerifC20Dump()), bc.Size())
+		c.Op(fmt.Sprintf("drainfill %d %d", lo, n), out)
+		c.Count("drainfill")
+		if bc.Size() != 1 {
+			c20Fail(c, "c20/flush-live-blocks", fmt.Sprintf("a block waiting for its parent was discarded after %d other heights had passed through the cache one at a time (never more than 2 blocks cached): the slice kept the emptied entries, reached the 10240 limit and was flushed (%s)", n, out), nil)
+		}
+	}
 	for _, n := range []int{10240, 10241} {
 		bc := network.NewBlockCache()
 		done := make(chan struct{})
@@ -617,14 +635,30 @@ type c20Conn struct {
 	mu     sync.Mutex
 	id     p2p.NodeID
 	writes []p2p.MsgCode
+	reqs   []uint32 // `From` of every GetBlocksMsg the node wrote to this peer (From == To in all sync requests)
 }
 
 func (c *c20Conn) ReadMsg() (*p2p.Msg, error) { select {} }
 func (c *c20Conn) WriteMsg(code p2p.MsgCode, msg []byte) error {
 	c.mu.Lock()
 	c.writes = append(c.writes, code)
+	if code == p2p.GetBlocksMsg {
+		var q network.GetBlocksData
+		if err := rlp.DecodeBytes(msg, &q); err == nil {
+			c.reqs = append(c.reqs, q.From)
+		}
+	}
 	c.mu.Unlock()
 	return nil
+}
+func (c *c20Conn) requests() []int {
+	c.mu.Lock()
+	defer c.mu.Unlock()
+	r := make([]int, len(c.reqs))
+	for i, v := range c.reqs {
+		r[i] = int(v)
+	}
+	return r
 }
 func (c *c20Conn) SetWriteDeadline(time.Duration)                     {}
 func (c *c20Conn) RNodeID() *p2p.NodeID                               { return &c.id }
@@ -656,33 +690,84 @@ func c20Tx(i int, valid bool) *types.Transaction {
 }
 
 func c20NewPM(chain network.BlockChain, pool network.TxPool) *network.ProtocolManager {
-	return network.NewProtocolManager(c20ChainID, p2p.NodeID{}, chain, nil, pool, txpool.NewTxGuard(uint32(time.Now().Unix())), p2p.NewDiscoverManager(""), 1, params.VersionUint(), "")
+	return c20NewPMGuard(chain, pool, txpool.NewTxGuard(uint32(time.Now().Unix())))
 }
 
+func c20NewPMGuard(chain network.BlockChain, pool network.TxPool, guard *txpool.TxGuard) *network.ProtocolManager {
+	return network.NewProtocolManager(c20ChainID, p2p.NodeID{}, chain, nil, pool, guard, p2p.NewDiscoverManager(""), 1, params.VersionUint(), "")
+}
+
+// one TxsMsg through the real handler into a real pool; compared with the model (driver op `txs`) and checked
+// directly: every valid, not-yet-packaged tx occurrence gets exactly one AddTx call, the pool holds each such tx
+// exactly once, one NewTx event per tx that entered the pool, nothing else enters.
+// kinds: 0 = fails VerifyTxBody, 1 = valid, 2 = valid but already packaged on the current branch (txGuard.ExistTx)
 func c20TxsCase(c *Ctx, idx int) {
 	n := 1 + c.Rnd.Intn(8)
 	lastInvalid := c.Rnd.Intn(3) == 0
-	var txs types.Transactions
-	validSet := map[common.Hash]bool{}
-	for i := 0; i < n; i++ {
-		valid := c.Rnd.Intn(6) != 0
-		if i == n-1 {
-			valid = !lastInvalid
-		}
-		tx := c20Tx(idx*100+i, valid)
-		if valid {
-			validSet[tx.Hash()] = true
-		}
-		txs = append(txs, tx)
+	type item struct {
+		id, kind int
+		tx       *types.Transaction
 	}
-	// a duplicate of a valid tx inside the batch
-	if c.Rnd.Intn(4) == 0 && len(validSet) > 0 && !lastInvalid {
-		txs = append(txs, txs[len(txs)-1])
+	var items []item
+	for i := 0; i < n; i++ {
+		kind := 1
+		switch c.Rnd.Intn(8) {
+		case 0:
+			kind = 0
+		case 1:
+			kind = 2
+		}
+		if i == n-1 {
+			if lastInvalid {
+				kind = 0
+			} else if kind == 0 {
+				kind = 1
+			}
+		}
+		items = append(items, item{id: i + 1, kind: kind, tx: c20Tx(idx*100+i, kind != 0)})
+	}
+	// duplicates of earlier elements inside the batch
+	for d := c.Rnd.Intn(3); d > 0 && c.Rnd.Intn(2) == 0; d-- {
+		items = append(items, items[c.Rnd.Intn(len(items))])
 		c.Count("txs:batch-with-duplicate")
 	}
+	idOf := map[common.Hash]int{}
+	kindOf := map[int]int{}
+	var txs types.Transactions
+	var words []string
+	for _, it := range items {
+		idOf[it.tx.Hash()] = it.id
+		kindOf[it.id] = it.kind
+		txs = append(txs, it.tx)
+		words = append(words, fmt.Sprintf("%d:%d", it.id, it.kind))
+		c.Count(fmt.Sprintf("txs:kind=%d", it.kind))
+	}
+	// the pool may already hold some of the valid txs
 	pool := &c20CountingPool{real: txpool.NewTxPool()}
-	pm := c20NewPM(newC20StubChain(5), pool)
+	var pre []int
+	for _, it := range items {
+		if it.kind == 1 && c.Rnd.Intn(6) == 0 && !containsInt(pre, it.id) {
+			pool.real.AddTx(it.tx)
+			pre = append(pre, it.id)
+			c.Count("txs:already-in-pool")
+		}
+	}
+	chain := newC20StubChain(5)
+	guard := txpool.NewTxGuard(uint32(time.Now().Unix()))
+	// the current block carries the kind-2 txs
+	cur := &types.Block{Header: &types.Header{Height: 6, ParentHash: chain.genesis.Hash(), Time: uint32(time.Now().Unix()), Extra: "cur"}}
+	for _, it := range items {
+		if it.kind == 2 {
+			cur.Txs = append(cur.Txs, it.tx)
+		}
+	}
+	guard.SaveBlock(cur)
+	chain.current = cur
+	chain.known[cur.Hash()] = cur
+	pm := c20NewPMGuard(chain, pool, guard)
 	defer pm.Stop()
+	// NewTx events: pm.txCh is the only subscriber (txConfirmLoop is not running, so they queue up; <= 10 per case).
+	// Do NOT add a second subscriber: subscribe.send shifts the shared case list in place (see report).
 	peer := network.VerifNewPeer(&c20Conn{})
 	buf, err := rlp.EncodeToBytes(&txs)
 	if err != nil {
@@ -692,11 +777,19 @@ func c20TxsCase(c *Ctx, idx int) {
 		c20Fail(c, "c20/txs-handler-error", err.Error(), nil)
 		return
 	}
-	// wait until the spawned goroutines are done: number of AddTx calls = number of verified txs
 	wantCalls := 0
-	for _, tx := range txs {
-		if validSet[tx.Hash()] {
+	wantPool := map[int]bool{}
+	for _, id := range pre {
+		wantPool[id] = true
+	}
+	wantEvents := 0
+	for _, it := range items {
+		if it.kind == 1 {
 			wantCalls++
+			if !wantPool[it.id] {
+				wantPool[it.id] = true
+				wantEvents++
+			}
 		}
 	}
 	deadline := time.Now().Add(2 * time.Second)
@@ -704,42 +797,83 @@ func c20TxsCase(c *Ctx, idx int) {
 		pool.mu.Lock()
 		k := len(pool.calls)
 		pool.mu.Unlock()
-		if k >= wantCalls {
+		if k >= wantCalls && pm.VerifC20TxQueueLen() >= wantEvents {
 			break
 		}
 		time.Sleep(2 * time.Millisecond)
 	}
-	time.Sleep(5 * time.Millisecond)
-	inPool := map[common.Hash]bool{}
-	for _, tx := range pool.real.GetTxs(uint32(time.Now().Unix()), 10000) {
-		inPool[tx.Hash()] = true
+	time.Sleep(10 * time.Millisecond)
+	var calls, inPool []int
+	pool.mu.Lock()
+	for _, h := range pool.calls {
+		calls = append(calls, idOf[h])
 	}
+	pool.mu.Unlock()
+	sort.Ints(calls)
+	for _, tx := range pool.real.GetTxs(uint32(time.Now().Unix()), 10000) {
+		inPool = append(inPool, idOf[tx.Hash()])
+	}
+	sort.Ints(inPool)
+	nEvents := pm.VerifC20TxQueueLen()
+	preS := "-"
+	if len(pre) > 0 {
+		sort.Ints(pre)
+		preS = c20JoinInts(pre, ",")
+	}
+	c.Op("txs pool:"+preS+" "+strings.Join(words, " "), fmt.Sprintf("calls=%s pool=%s events=%d", c20JoinInts(calls, ","), c20JoinInts(inPool, ","), nEvents))
 	c.Count(fmt.Sprintf("txs:batch=%d", len(txs)))
 	if lastInvalid {
 		c.Count("txs:last-invalid")
 	}
-	missing, unverified := 0, 0
-	for h := range validSet {
-		if !inPool[h] {
+	// direct oracle
+	missing, foreign, dupSlots := 0, 0, 0
+	seen := map[int]int{}
+	for _, id := range inPool {
+		seen[id]++
+		if !wantPool[id] {
+			foreign++
+		}
+		if seen[id] > 1 {
+			dupSlots++
+		}
+	}
+	for id := range wantPool {
+		if seen[id] == 0 {
 			missing++
 		}
 	}
-	for h := range inPool {
-		if !validSet[h] {
-			unverified++
+	var wantCallList []int
+	for _, it := range items {
+		if it.kind == 1 {
+			wantCallList = append(wantCallList, it.id)
 		}
 	}
-	if missing > 0 || unverified > 0 {
+	sort.Ints(wantCallList)
+	switch {
+	case missing > 0 || foreign > 0:
 		c.Count("txs:violation")
 		sig := "c20/txs-batch-loopvar"
-		if unverified > 0 {
+		if foreign > 0 {
 			sig = "c20/txs-batch-loopvar/unverified-in-pool"
 		}
-		c20Fail(c, sig, fmt.Sprintf("TxsMsg with %d txs (%d valid, last one valid=%v): %d valid txs never reached the pool, %d txs that FAILED VerifyTxBody are in the pool; %d distinct txs in the pool (the goroutines of handleTxsMsg share the loop variable `tx`)", len(txs), len(validSet), !lastInvalid, missing, unverified, len(inPool)),
-			map[string]interface{}{"batch": len(txs), "valid": len(validSet), "last_valid": !lastInvalid})
-	} else {
+		c20Fail(c, sig, fmt.Sprintf("TxsMsg %v (id:kind, 0=fails VerifyTxBody 1=valid 2=already packaged), pool before %v: %d valid txs never reached the pool, %d txs that must not enter are in the pool; pool now %v", words, pre, missing, foreign, inPool),
+			map[string]interface{}{"batch": words, "pre": pre})
+	case c20JoinInts(calls, ",") != c20JoinInts(wantCallList, ",") || dupSlots > 0 || nEvents != wantEvents:
+		c.Count("txs:violation")
+		c20Fail(c, "c20/txs-multiplicity", fmt.Sprintf("TxsMsg %v, pool before %v: AddTx calls %v (want %v), pool %v (%d duplicate slots), NewTx events %d (want %d)", words, pre, calls, wantCallList, inPool, dupSlots, nEvents, wantEvents),
+			map[string]interface{}{"batch": words, "pre": pre})
+	default:
 		c.Count("txs:ok")
 	}
+}
+
+func containsInt(l []int, v int) bool {
+	for _, x := range l {
+		if x == v {
+			return true
+		}
+	}
+	return false
 }
 
 func c20(c *Ctx) {
@@ -762,5 +896,6 @@ func c20(c *Ctx) {
 	for i := 0; i < nTx; i++ {
 		c20TxsCase(c, i)
 	}
+	c20Races(c)
 	c20PM(c)
 }
